@@ -92,9 +92,11 @@ pub enum Src {
     RepeatN,
     /// iterator.generate(f, n)
     GenerateN,
+    /// a host-provided byte iterator (KIterator::with_bytes), bidirectional
+    Bytes,
 }
 
-const SOURCES: [Src; 12] = [Src::List, Src::Tuple, Src::Range, Src::Str, Src::Map, Src::Gen, Src::MetaNext, Src::MetaBidir, Src::MetaIterator, Src::IterValue, Src::RepeatN, Src::GenerateN];
+const SOURCES: [Src; 13] = [Src::List, Src::Tuple, Src::Range, Src::Str, Src::Map, Src::Gen, Src::MetaNext, Src::MetaBidir, Src::MetaIterator, Src::IterValue, Src::RepeatN, Src::GenerateN, Src::Bytes];
 
 #[derive(Clone, Copy, PartialEq, Eq, Debug, Hash)]
 pub enum Other {
@@ -260,6 +262,7 @@ fn source_src(s: Src, n: usize) -> String {
         Src::IterValue => format!("src = (1..{}).iter()\n", n + 1),
         Src::RepeatN => format!("src = iterator.repeat 5, {n}\n"),
         Src::GenerateN => format!("src = iterator.generate gf, {n}\n"),
+        Src::Bytes => format!("src = verif_bytes {n}\n"),
     }
 }
 
@@ -300,7 +303,7 @@ fn other_of(c: &Case) -> Option<Other> {
 }
 
 fn stateful(s: Src) -> bool {
-    matches!(s, Src::Gen | Src::MetaNext | Src::MetaBidir | Src::IterValue | Src::RepeatN | Src::GenerateN)
+    matches!(s, Src::Gen | Src::MetaNext | Src::MetaBidir | Src::IterValue | Src::RepeatN | Src::GenerateN | Src::Bytes)
 }
 
 pub fn render(c: &Case) -> String {
@@ -777,7 +780,7 @@ fn build_source(s: Src, n: usize) -> It {
         mk(Node::Seq { items, front: 0, back, kind, bidir, copy_shares })
     };
     match s {
-        Src::List | Src::Tuple | Src::Range | Src::MetaIterator | Src::IterValue => seq(ints, SeqKind::Data, true, false),
+        Src::List | Src::Tuple | Src::Range | Src::MetaIterator | Src::IterValue | Src::Bytes => seq(ints, SeqKind::Data, true, false),
         Src::Str => seq("abcdefgh"[..n].chars().map(|c| V::Str(c.to_string())).collect(), SeqKind::Data, true, false),
         Src::Map => seq((1..=n).map(|i| V::Tup(vec![V::Str("abcdefgh"[i - 1..i].to_string()), V::Int(i as i64)])).collect(), SeqKind::Data, true, false),
         Src::Gen => seq(ints, SeqKind::Traced("pull"), false, false),
@@ -791,7 +794,7 @@ fn build_source(s: Src, n: usize) -> It {
 /// Is `src` itself a shared iterator (adaptors advance it), or an iterable that gets a fresh
 /// iterator for every use?
 fn source_is_iterator_value(s: Src) -> bool {
-    matches!(s, Src::Gen | Src::MetaNext | Src::MetaBidir | Src::IterValue | Src::RepeatN | Src::GenerateN)
+    matches!(s, Src::Gen | Src::MetaNext | Src::MetaBidir | Src::IterValue | Src::RepeatN | Src::GenerateN | Src::Bytes)
 }
 
 fn out(v: Option<V>) -> V {
@@ -1188,6 +1191,19 @@ fn classify(_c: &Case, _model: &[String], _real: &[String]) -> Option<String> {
     None
 }
 
+fn new_instance() -> Instance {
+    use koto::prelude::*;
+    let inst = Instance::new(RunCfg { budget_ticks: 200_000, ..RunCfg::default() });
+    inst.koto.prelude().add_fn("verif_bytes", |ctx| match ctx.args() {
+        [KValue::Number(n)] => {
+            let bytes: Vec<u8> = (1..=i64::from(n) as u8).collect();
+            Ok(KIterator::with_bytes(bytes.into())?.into())
+        }
+        unexpected => unexpected_args("|Number|", unexpected),
+    });
+    inst
+}
+
 pub fn run(args: &Args) -> i32 {
     install_quiet_panic_hook();
     let tier = args.tier;
@@ -1197,7 +1213,7 @@ pub fn run(args: &Args) -> i32 {
             Some((_, p)) => p.to_string(),
             None => text,
         };
-        let a = run_script(&src, &RunCfg::default());
+        let a = new_instance().run(&src);
         println!("stdout:\n{}outcome: {:?}", a.stdout, a.outcome);
         return 0;
     }
@@ -1217,7 +1233,7 @@ pub fn run(args: &Args) -> i32 {
     let wall_cap = tier.pick(50.0, 1500.0);
     let started = std::time::Instant::now();
     let results = par_shards_big_stack(nshards, 32 << 20, |shard| {
-        let mut inst = Instance::new(RunCfg { budget_ticks: 200_000, ..RunCfg::default() });
+        let mut inst = new_instance();
         let mut cases = 0u64;
         let mut judged = 0u64;
         let mut unmodelled: BTreeMap<&'static str, u64> = BTreeMap::new();
@@ -1303,7 +1319,7 @@ pub fn run(args: &Args) -> i32 {
                             // resource exhaustion, out of the property's scope
                             *unmodelled.entry("collecting an endless cycle (capacity overflow)").or_insert(0) += 1;
                             judged -= 1;
-                            inst = Instance::new(RunCfg { budget_ticks: 200_000, ..RunCfg::default() });
+                            inst = new_instance();
                             continue;
                         }
                         if !ok {
@@ -1332,7 +1348,7 @@ pub fn run(args: &Args) -> i32 {
                             }
                             if !matches!(obs.outcome, Outcome::Ok(_)) {
                                 // a panicked / exhausted instance is replaced
-                                inst = Instance::new(RunCfg { budget_ticks: 200_000, ..RunCfg::default() });
+                                inst = new_instance();
                             }
                         }
                     }
